@@ -9,9 +9,12 @@ CLAIMS = {
         technique="Coq proof (induction + Z.log2 arithmetic) over an executable model; differential correspondence with the real concurrent_vector via extracted OCaml",
         text="Theorems seg_bijection (all 64-bit indices), grow_ranges_tile (any call sequence = any interleaving of the single RMW per call), "
              "grow_to_at_least_covers (every n < 2^64) and the refutation of the historical int-cast decision are proved in Coq over the model; "
-             "the model is run against the real segment_table/concurrent_vector on boundary-dense indices and growth sequences incl. n >= 2^31 on every run.",
+             "the model is run against the real segment_table/concurrent_vector on boundary-dense indices and growth sequences incl. n >= 2^31 on every run. Gate exploration of the real vector "
+             "(2-4 logical threads, throwing allocator, directed 'late segment owner' schedules): no construction outside live memory, no element constructed twice, at(i) works or throws, "
+             "grow_to_at_least(n) does not return while a segment below n is unallocated. Two defects found and repaired (fix: bc8f980 int-cast decision; fix: d40e28d early return of the growing call).",
         note="Trusted: Coq kernel, extraction (ExtrOcamlBasic), dump_params, drivers. Modelled not verified: segment allocation/first-block election/"
-             "table extension and allocation-failure handling (exercised only by the real-thread oracle runs).",
+             "table extension and allocation-failure handling (gate exploration and real-thread oracle runs only); 'constructed' is checked as 'segment allocated and this call's own elements hold its value' — "
+             "elements of other calls still in flight may be under construction, as the library documents.",
         ref="4/C11"),
     "C13": dict(
         technique="Coq proof (induction over both passes of handle_operations) over an executable model; differential correspondence with the real handle_operations and public API; spec-level linearizability oracle",
